@@ -1206,7 +1206,17 @@ pub fn gen_case(seed: u64, run: u64, faults: bool) -> Case {
             },
             9..=10 => {
                 let mut argv = gen_line(&mut r, &live[p], &ix, faults);
-                if faults {
+                if r.chance(1, 4) {
+                    // nothing but a request for the top level's help
+                    let h = match &live[p].help_names {
+                        None => vec![b"--help".to_vec(), b"-h".to_vec()],
+                        Some(n) => gen::all_spellings(n),
+                    };
+                    argv = vec![r.pick(&h).clone()];
+                    if r.chance(1, 4) {
+                        argv.push(r.pick(&h).clone());
+                    }
+                } else if faults {
                     gen::mutate(&mut r, &live[p], &mut argv);
                 } else {
                     // help somewhere
@@ -1600,6 +1610,100 @@ pub fn run_case(case: &Case, stats: &mut Stats) -> RunReport {
                             describe(&fresh)
                         )
                     );
+                }
+                // ---- R14: help shows the value of a variable, it never interprets it: on a
+                // line that only asks the top level for help, giving one variable another value
+                // changes a stretch of the text no longer than the values themselves
+                let root_help: Vec<Tok> = match &l.opts.help_names {
+                    None => vec![b"--help".to_vec(), b"-h".to_vec()],
+                    Some(n) => gen::all_spellings(n),
+                };
+                if !argv.is_empty()
+                    && argv.iter().all(|t| root_help.contains(t))
+                    && matches!(first.outcome, Outcome::Stdout(_))
+                {
+                    let mut names: Vec<Tok> = first.env_reads.iter().map(|r| r.0.clone()).collect();
+                    names.sort();
+                    names.dedup();
+                    const PROBES: [&[u8]; 8] =
+                        [b"7", b"a\n\nb", b"\n\n", b" x", b"\\", b"\"", b"", b"p\n\n\nq"];
+                    for (k, name) in names.iter().take(3).enumerate() {
+                        let declared_by = l
+                            .ix
+                            .iter()
+                            .filter(|it| it.named.envs.iter().any(|e| e.as_bytes() == &name[..]))
+                            .count();
+                        if declared_by != 1 {
+                            continue;
+                        }
+                        let old = world::with(|s| s.env.get(name).cloned());
+                        let new = PROBES[(case.run as usize + opi + k) % PROBES.len()];
+                        if old.as_deref() == Some(new) {
+                            continue;
+                        }
+                        world::with(|s| s.env.insert(name.clone(), new.to_vec()));
+                        let other = run_on(l, op);
+                        world::with(|s| match &old {
+                            Some(v) => {
+                                s.env.insert(name.clone(), v.clone());
+                            }
+                            None => {
+                                s.env.remove(name);
+                            }
+                        });
+                        relational += 1;
+                        stats.bump("rule.R14.evaluated");
+                        let (a, b) = match (&first.outcome, &other.outcome) {
+                            (Outcome::Stdout(a), Outcome::Stdout(b)) => (a, b),
+                            _ => {
+                                violation!(
+                                    "R14",
+                                    opi,
+                                    "rule=R14 help-request-not-answered".to_string(),
+                                    format!(
+                                        "a line that only asks for help is answered with help under one value of {} and not under another\nvalue {:?}: {}\nvalue {:?}: {}",
+                                        String::from_utf8_lossy(name),
+                                        old.as_ref().map(|v| String::from_utf8_lossy(v).to_string()),
+                                        describe(&first),
+                                        String::from_utf8_lossy(new),
+                                        describe(&other)
+                                    )
+                                );
+                                continue;
+                            }
+                        };
+                        let norm = |t: &str| -> Vec<char> {
+                            t.split_whitespace().collect::<Vec<_>>().join(" ").chars().collect()
+                        };
+                        let (a, b) = (norm(a), norm(b));
+                        let pre = a.iter().zip(b.iter()).take_while(|(x, y)| x == y).count();
+                        let suf = a[pre..]
+                            .iter()
+                            .rev()
+                            .zip(b[pre..].iter().rev())
+                            .take_while(|(x, y)| x == y)
+                            .count();
+                        let longest = old.as_ref().map_or(0, |v| v.len()).max(new.len());
+                        let bound = 8 * longest + 24;
+                        if a.len() - pre - suf > bound || b.len() - pre - suf > bound {
+                            if new.contains(&b'\n') {
+                                stats.bump("probe.help_with_blank_line_in_variable");
+                            }
+                            violation!(
+                                "R14",
+                                opi,
+                                "rule=R14 value-interpreted-by-help".to_string(),
+                                format!(
+                                    "help differs in more than the shown value when {} goes from {:?} to {:?}\nbefore: {}\nafter : {}",
+                                    String::from_utf8_lossy(name),
+                                    old.as_ref().map(|v| String::from_utf8_lossy(v).to_string()),
+                                    String::from_utf8_lossy(new),
+                                    describe(&first),
+                                    describe(&other)
+                                )
+                            );
+                        }
+                    }
                 }
                 // ---- relational rules need a line the oracle fully understands
                 let info = match scan(&l.ix, argv) {
